@@ -11,7 +11,9 @@ pub const F_SOURCE: usize = 4;
 pub const F_DEFAULT_PANIC: usize = 5;
 pub const F_CLOSURE_PANIC: usize = 6;
 pub const F_SINK: usize = 7;
-pub const N_FAULTS: usize = 8;
+pub const F_HASHER: usize = 8;
+pub const F_SOURCE_EXTRA: usize = 9;
+pub const N_FAULTS: usize = 10;
 pub const FAULT_NAMES: [&str; N_FAULTS] = [
     "F1-cancel(drop mid-history)",
     "F2-forget(mem::forget)",
@@ -21,6 +23,8 @@ pub const FAULT_NAMES: [&str; N_FAULTS] = [
     "F6-default-panic(T::default unwinds)",
     "F7-closure-panic(callback of map*/fold/for_each/find/... or a loop body unwinds)",
     "F8-sink-failure(the formatter sink returns Err at its k-th write: `?` early returns in Debug/Display)",
+    "F9-hasher-panic(the caller's Hasher unwinds at its k-th write)",
+    "F10-source-hint/drop-panic(the from_iter source's size_hint() or its own destructor unwinds)",
 ];
 
 macro_rules! probes {
@@ -73,8 +77,14 @@ probes! {
     P_SWAP_TWIN = 40, "iterator swapped with the twin iterator (both change address)";
     P_DEFAULT_PROBE_ACTIVE = 41, "Default probe found IntoIter<Tok>: Default";
     P_FROMITER_GAP = 42, "from_iter over a source that is not fused (None once, more elements behind it)";
+    P_VREDUCE = 43, "reduce(f) on a vector of non-Copy elements";
+    P_KIND_CONV = 44, "kind / size conversion chain between vector types (From<other kind>, From<(smaller, scalar)>, truncating From<larger>)";
+    P_KIND_CONV_TRUNC = 45, "kind / size conversion that cuts elements off (they must be destroyed exactly once)";
+    P_MAT_SHRINK = 46, "truncating matrix conversion (Mat4 -> Mat3 / Mat2, Mat3 -> Mat2)";
+    P_SOURCE_EXTRA_FIRED = 47, "from_iter source's size_hint() / destructor panic fired";
+    P_CLONE_FROM = 48, "clone_from on a vector (old elements of the destination destroyed, fresh clones in place)";
 }
-pub const N_PROBES: usize = 43;
+pub const N_PROBES: usize = 49;
 
 pub const N_OPK: usize = 80;
 
